@@ -350,11 +350,11 @@ func e6EndpointAssign(p *Prog, r *Report, fn *Func, as *ast.AssignStmt, sel *ast
 		}
 		if call, isCall := ast.Unparen(a.E).(*ast.CallExpr); isCall && a.Pol {
 			if s2, isSel := ast.Unparen(call.Fun).(*ast.SelectorExpr); isSel && s2.Sel.Name == "ContainsPos" {
-				if c := fn.Canon(s2.X); c == rp {
+				if c := fn.Canon(s2.X); c == rp && c != "" {
 					return true
 				}
 				// the variable is a copy of that range
-				if def := fn.aliasDef(rv); def != nil && fn.Canon(def) == fn.Canon(s2.X) {
+				if def := fn.aliasDef(rv); def != nil && fn.Canon(def) == fn.Canon(s2.X) && fn.Canon(def) != "" {
 					return true
 				}
 			}
